@@ -168,7 +168,12 @@
             (bag-comparator bag)))
 
 (define (bag->list bag)
-  (hash-table-keys (bag-table bag)))
+  ;; every element as many times as it occurs
+  (hash-table-fold (lambda (elt count acc)
+                     (let lp ((i 0) (acc acc))
+                       (if (< i count) (lp (+ i 1) (cons elt acc)) acc)))
+                   '()
+                   (bag-table bag)))
 
 (define (list->bag comparator list)
   (fold (lambda (elt bag) (bag-adjoin! bag elt)) (bag comparator) list))
